@@ -81,6 +81,7 @@ class World:
         if names != ["entries", "indexes"]:
             raise Undecided("Object is no longer { entries, indexes }: %r" % (names,))
         # dropping a removal iterator runs its Drop impl (which must finish the removal)
+        self.permute_instead_of_sort = False
         self.it.drop_policy = lambda inst: bool(re.search(r"json_syntax::object::Removed", inst["name"]))
         self.install()
 
@@ -291,6 +292,10 @@ class World:
                 return NotImplemented
             if not isinstance(st.heap.get(oid), AVec):
                 return NotImplemented
+            if W.permute_instead_of_sort:
+                m_ = st.heap[oid]
+                st.heap[oid] = AVec(tuple(reversed(m_.items)), m_.role)
+                return UNIT
             bodies = [c_ for c_ in (s_["callee"] for s_ in it.p.sites(inst["id"])) if c_ is not None and it.p.inst[c_].get("def_kind") == "Closure"]
             body = None
             if bodies:
